@@ -97,9 +97,10 @@ def sqlValCanon : SqlVal × Nat → String
   | (.timestamp u, n) => s!"timestamp:{u} n={n}"
   | (.float64 u, n) => s!"float:{u} n={n}"
 
-/-- The flag set describing the code that currently exists in /repo.  Flip a flag here when the
-corresponding guard has been added to the Go source (see `Fix` in ImmuModel/Base/GoSlice.lean). -/
-def currentCode : Fix := Fix.none
+/-- The flag set describing the code that currently exists in /repo: `Fix.current`
+(ImmuModel/Base/GoSlice.lean).  Flip a flag THERE when the corresponding guard has been added to (or
+removed from) the Go source; the property theorems of Props/C16.lean are stated for the same flag set. -/
+def currentCode : Fix := Fix.current
 
 def withHex (h : String) (f : Bytes → String) : String :=
   match Bytes.ofHex h with
